@@ -263,6 +263,31 @@ class BitVal:
         return hash(('bit', self.n))
 
 
+class OrBits:
+    """Boolean that is the OR of a set of scalar bits (e.g. `found_one` of double-and-add)."""
+    __slots__ = ('s',)
+
+    def __init__(self, s_):
+        self.s = frozenset(s_)
+
+    def __repr__(self):
+        return 'or(%s)' % ','.join(str(x) for x in sorted(self.s))
+
+    def __eq__(self, o):
+        return isinstance(o, OrBits) and o.s == self.s
+
+    def __hash__(self):
+        return hash(('or', self.s))
+
+
+def cond_bits(c):
+    if isinstance(c, BitVal):
+        return frozenset([c.n])
+    if isinstance(c, OrBits):
+        return c.s
+    return None
+
+
 class BV:
     """Bit-provenance vector of a machine word (LSB first): entries 0, 1, BitVal or None."""
     __slots__ = ('e',)
@@ -368,11 +393,21 @@ def val_eq(a, b):
 
 
 def lin_times_bit(l, bit):
+    """l * cond for a boolean cond that is a scalar bit or an OR of scalar bits; uses
+    b_k * cond = b_k whenever b_k is one of the OR-ed bits (b_k implies cond)."""
+    bits = cond_bits(bit)
     out = {}
     for a, k in l.t.items():
         if '*b' in a:
+            kk = int(a.rsplit('*b', 1)[1])
+            if kk in bits:
+                out[a] = out.get(a, 0) + k
+                continue
             return None
-        out['%s*b%d' % (a, bit.n)] = k
+        if len(bits) != 1:
+            return None
+        nm = '%s*b%d' % (a, next(iter(bits)))
+        out[nm] = out.get(nm, 0) + k
     return Lin(out)
 
 
@@ -387,6 +422,16 @@ def merge_on_bit(bit, s0, s1):
 def merge_val(bit, a, b):
     if val_eq(a, b):
         return a
+    # booleans: (cond ? b : a)
+    cb = cond_bits(bit)
+    if cond_bits(b) == cb and cb is not None:
+        # arm taken when cond holds keeps cond itself; the other arm sets a new bit / false
+        if isinstance(a, Int) and a.v == 0:
+            return bit
+        if cond_bits(a) is not None:
+            return OrBits(cb | cond_bits(a))
+    if isinstance(a, Int) and isinstance(b, Int) and a.v == 0 and b.v == 1:
+        return bit
     if isinstance(a, Lin) and isinstance(b, Lin):
         d = lin_times_bit(b.add(a.neg()), bit)
         if d is not None:
@@ -576,6 +621,9 @@ class Frame:
                     return TOP
                 if e[0] == 'i':
                     iv = self.store.get(e[1])
+                    if hasattr(v, 'lookup_contract'):
+                        v = v.lookup_contract(iv)
+                        continue
                     if isinstance(iv, Int) and iv.v < len(v.items):
                         v = v.items[iv.v]
                         continue
@@ -738,6 +786,7 @@ class Interp:
         self.stop_on_unknown_switch = stop_on_unknown_switch
         self.sums = False          # keep field additions as sums of monomials (Sum) instead of opaque atoms
         self.interned = []         # multi-term sums that had to be multiplied: named atoms S#k
+        self.binop_hook = None     # (op, a, b) -> abstract value | None ; unop: (op, a, None)
         self.block_hook = None     # (fr, bb, pth) -> new bb | None : region summaries
         self.switch_hook = None    # (fr, term, dv, pth) -> target bb | None : assumed branch outcomes
         self.opaque_sites = []
@@ -852,7 +901,7 @@ class Interp:
                 if decided is None and self.stop_on_unknown_switch and not (isinstance(dv, tuple) and dv and dv[0] in ('bool', 'discr')):
                     results.append((pth, ('stopped', fr, bb), {}))
                     return
-                if decided is None and isinstance(dv, BitVal):
+                if decided is None and isinstance(dv, (BitVal, OrBits)):
                     # if-conversion on a symbolic scalar bit: run both arms to the join point and merge
                     join = _ipdom(body, bb)
                     if join is None:
@@ -946,6 +995,11 @@ class Interp:
             a = fr.operand(rv['a'])
             b = fr.operand(rv['b'])
             op = rv['op']
+            if self.binop_hook is not None:
+                hv = self.binop_hook(op, a, b)
+                if hv is not None:
+                    fr.storev(dst, hv)
+                    return
             if op.endswith('WithOverflow') and isinstance(a, Int) and isinstance(b, Int):
                 base = op[:-len('WithOverflow')]
                 r = {'Add': a.v + b.v, 'Sub': a.v - b.v, 'Mul': a.v * b.v}.get(base)
@@ -1008,6 +1062,11 @@ class Interp:
             fr.storev(dst, kb if kb is not None else TOP)
         elif k == 'unop':
             a = fr.operand(rv['a'])
+            if self.binop_hook is not None:
+                hv = self.binop_hook(rv['op'], a, None)
+                if hv is not None:
+                    fr.storev(dst, hv)
+                    return
             if isinstance(a, Int) and rv['op'] == 'Not':
                 fr.storev(dst, Int(1 - a.v) if a.bits == 1 or a.v in (0, 1) else Int(~a.v & ((1 << 64) - 1)))
             elif isinstance(a, tuple) and a[0] == 'bool' and rv['op'] == 'Not':
@@ -1025,7 +1084,7 @@ class Interp:
                 fr.storev(dst, TOP)
         elif k == 'cast':
             a = fr.operand(rv['op'])
-            if isinstance(a, (Int, BV)) and rv['kind'] == 'IntToInt':
+            if rv['kind'] == 'IntToInt' and (isinstance(a, (Int, BV)) or (self.binop_hook is not None and a is not TOP and not isinstance(a, (Lin, Agg, tuple)))):
                 fr.storev(dst, a)
             elif rv['kind'].startswith('PointerCoercion'):
                 fr.storev(dst, a)
